@@ -548,9 +548,10 @@ _special = st.one_of(st.just(0), _nzhalf)
 
 # Indexed by (one wide drawn integer) mod 20: Hypothesis draws small bounded
 # integers / menu positions very unevenly, which starved some device counts.
-BACKEND_TABLE = ['jit', 'jit', 'debug', 'pmap', 'pmap', 'pmap:1', 'pmap:2', 'pmap:2',
-                 'pmap:3', 'pmap:3', 'pmap:4', 'pmap:4', 'pmap:5', 'pmap:5', 'pmap:6',
-                 'pmap:6', 'pmap:7', 'pmap:7', 'pmap:8', 'debug']
+# Positions 0 and 1 (drawn most often) hold the most padding-prone backends.
+BACKEND_TABLE = ['pmap:8', 'pmap:3', 'debug', 'pmap', 'pmap', 'pmap:1', 'pmap:2', 'pmap:2',
+                 'jit', 'pmap:3', 'pmap:4', 'pmap:4', 'pmap:5', 'pmap:5', 'pmap:6',
+                 'pmap:6', 'pmap:7', 'pmap:7', 'jit', 'debug', 'jit']
 
 
 @st.composite
